@@ -946,8 +946,13 @@ func (fc *FnCtx) typeAssert(x *ssa.TypeAssert) {
 	var ok string
 	var val V
 	if isIface(at) {
-		pred := fc.implPred(at)
-		ok = and(not(eq(iv.T[0], "0")), sx(pred, iv.T[0]))
+		if ai, isI := at.Underlying().(*types.Interface); isI && types.Implements(x.X.Type(), ai) {
+			// the operand's static type already has the methods: the assertion only excludes nil
+			ok = not(eq(iv.T[0], "0"))
+		} else {
+			pred := fc.implPred(at)
+			ok = and(not(eq(iv.T[0], "0")), sx(pred, iv.T[0]))
+		}
 		val = V{Ty: at, T: iv.T}
 	} else {
 		tag := fc.tagTerm(at)
